@@ -34,6 +34,8 @@ func mutateCluster(t *rapid.T, a ClusterT, o GenOpts, keepPolicies bool) Cluster
 		case 6: // re-created under the same name on the other side (a rescheduled statefulset member: local <-> remote), new address
 			p.Local = !p.Local
 			p.IP = fmt.Sprintf("10.20.5.%d", 10+len(b.Pods))
+		case 7: // no address (re-created under the same name and not networked yet)
+			p.IP = ""
 		case 4: // new address
 			p.IP = fmt.Sprintf("10.20.3.%d", 10+len(b.Pods))
 		case 5: // new address which is a textual prefix of the old one (10.20.0.12 -> 10.20.0.1), if nobody else has it
